@@ -82,7 +82,7 @@ func verifPickScratch() {
 	ents, _ := os.ReadDir(top)
 	for _, e := range ents {
 		var pid int
-		if _, err := fmt.Sscanf(e.Name(), "pid%d", &pid); err == nil && pid > 0 && syscall.Kill(pid, 0) == syscall.ESRCH {
+		if _, err := fmt.Sscanf(e.Name(), "pid%d-", &pid); err == nil && pid > 0 && syscall.Kill(pid, 0) == syscall.ESRCH {
 			p := filepath.Join(top, e.Name())
 			filepath.Walk(p, func(q string, fi os.FileInfo, err error) error {
 				if err == nil {
@@ -93,10 +93,13 @@ func verifPickScratch() {
 			os.RemoveAll(p)
 		}
 	}
-	mine := filepath.Join(top, fmt.Sprintf("pid%d", os.Getpid()))
-	if os.MkdirAll(mine, 0755) == nil {
-		verifScratchBase = mine
-	}
+	verifScratchBase = top
+}
+
+// verifScratchPattern names the scratch roots after the process so that a
+// later worker can sweep what a killed one left behind.
+func verifScratchPattern(kind string) string {
+	return fmt.Sprintf("pid%d-%s-", os.Getpid(), kind)
 }
 
 func verifSetImmutable(path string, on bool) error {
@@ -129,7 +132,7 @@ func verifInit() {
 	randutil.RandomDuration(1)
 	syscall.Umask(0022)
 	verifPickScratch()
-	d, err := os.MkdirTemp(verifScratchBase, "verifc23probe")
+	d, err := os.MkdirTemp(verifScratchBase, verifScratchPattern("probe"))
 	if err != nil {
 		return
 	}
@@ -1361,7 +1364,7 @@ func verifRunC23(c *verifsim.Ctx) {
 	verifInit()
 	rand.Seed(int64(c.Draw("tmp-name-seed", 1<<16)))
 
-	root, err := os.MkdirTemp(verifScratchBase, "verifc23")
+	root, err := os.MkdirTemp(verifScratchBase, verifScratchPattern("run"))
 	if err != nil {
 		c.Fatalf("mkdtemp: %v", err)
 	}
